@@ -167,35 +167,60 @@ class Val2Idx(Contract):
         return d
 
     def replay(self, c):
+        """replays the counter-model; because the proof is over reals, the model's coordinate
+        may miss a float-exact condition (e.g. uniform spacing), so canonical coordinates of the
+        same length/direction and queries at centres/edges/mid-cells are tried as well"""
         if 'values' not in c['x'] or 'values' not in c['val']:
             return None
+        import numpy as np
+        n = len(c['x']['values'])
+        sgn = 1 if self.direction == 'ascending' else -1
+        cands = [(np.array(c['x']['values'], 'd'), np.array(c['val']['values'], 'd'), c.get('e', {}).get('values') if c.get('e') else None)]
+        for base in (np.arange(n, dtype='d') * 10 + 10, np.cumsum(np.arange(1, n + 1, dtype='d'))):
+            cands.append((base[::sgn].copy(), None, 'derive'))
+        last = None
+        for x, val, e in cands:
+            r = self.replay_one(x, val, e)
+            if r is None:
+                continue
+            last = r
+            if r[0] is False:
+                return r
+        return last
+
+    def replay_one(self, x, val, e):
         P = import_real()
         import numpy as np
         import warnings
-        x = np.array(c['x']['values'], 'd')
-        val = np.array(c['val']['values'], 'd')
         f = P.PseudoNetCDFFile()
         f.createDimension('x', x.size)
         f.createVariable('x', 'd', ('x',))[:] = x
-        edges = None
+        d = np.diff(x) / 2
+        if (d == d[0]).all():
+            derived = np.concatenate([[x[0] - d[0]], x[1:] - d, [x[-1] + d[-1]]])
+        else:
+            derived = np.concatenate([[x[0]], x[1:] - d, [x[-1]]])
         if self.bnds == '1d':
-            edges = np.array(c['e']['values'], 'd')
+            edges = np.array(e, 'd') if e is not None and not isinstance(e, str) else derived
             f.createDimension('xe', x.size + 1)
             f.createVariable('x_bounds', 'd', ('xe',))[:] = edges
         elif self.bnds == 'nx2':
-            b = np.array(c['e']['values'], 'd')
+            b = np.array(e, 'd') if e is not None and not isinstance(e, str) else np.array([derived[:-1], derived[1:]]).T
             f.createDimension('nv', 2)
             f.createVariable('x_bounds', 'd', ('x', 'nv'))[:] = b
             edges = np.append(b[:, 0], b[-1, 1])
         else:
-            d = np.diff(x) / 2
-            edges = np.concatenate([[x[0] - d[0]], x[1:] - d, [x[-1] + d[-1]]])
+            edges = derived
+        if val is None:
+            val = np.concatenate([x, edges, (edges[1:] + edges[:-1]) / 2, (x[1:] * 3 + x[:-1]) / 4])
+        else:
+            val = np.concatenate([val, x, (edges[1:] + edges[:-1]) / 2])
         try:
             with warnings.catch_warnings():
                 warnings.simplefilter('ignore')
                 out = f.val2idx('x', val, method=self.method, bounds=self.bounds)
-        except Exception as e:
-            return False, dict(raised=type(e).__name__, message=str(e)[:200], x=x.tolist(), val=val.tolist())
+        except Exception as ex:
+            return False, dict(raised=type(ex).__name__, message=str(ex)[:200], x=x.tolist(), val=val.tolist())
         bad = []
         if not np.array_equal(f.variables['x'][:], x):
             bad.append('coordinate modified: %s' % f.variables['x'][:].tolist())
@@ -217,7 +242,7 @@ class Val2Idx(Contract):
                 a, b = sorted((edges[r], edges[r + 1]))
                 if not (a <= v <= b):
                     bad.append('val %r -> cell %d = [%r, %r]' % (v, r, edges[r], edges[r + 1]))
-        return (not bad), dict(x=x.tolist(), val=val.tolist(), edges=np.asarray(edges).tolist(), out=out.tolist(), failed=bad[:4])
+        return (not bad), dict(x=x.tolist(), val=val.tolist()[:8], edges=np.asarray(edges).tolist(), out=out.tolist()[:8], failed=bad[:4])
 
 
 def frame_same(arr, get0, n):
